@@ -24,7 +24,19 @@ TRUSTED = ['envelope values are an oracle: the table handed to the model holds t
            'decision margin is below 1e-7 are skipped and counted']
 ASSUMPTIONS = ['an envelope is None iff the iterate has fewer than two strict interior maxima / minima (checked per visited '
                'iterate against the model\'s own count: field envdis of the GNI answer)',
-               'fixed stopping rule is used with max_iters >= 1 (max_iters = 0 does not terminate in the code; outside the documented range)']
+               'fixed stopping rule is used with max_iters >= 1 (max_iters = 0 does not terminate in the code; outside the documented range)',
+               '"bounded by the configured iteration limit" is read as: the convergence error is due after max_iters or after max_iters + 1 '
+               'iterations (the code performs max_iters + 1 for the sd / rilling rules; model and reference table follow the code): an exit the '
+               'reference reaches in iteration max_iters + 1 exactly may equally be the convergence error (tag '
+               'exit-in-iteration-max_iters+1(error-equally-accepted)); an error at an exit in iteration <= max_iters, or a returned '
+               'component when no rule fired within max_iters + 1 iterations, is a failure',
+               'NOT JUDGED (outside statement / quantifier; recorded as tags or mechanism-level, literal=False): the stand-alone stop '
+               'functions sd_stop / rilling_stop / fixed_stop / energy_stop (stream stop_rules; fixed_stop only with 1 <= niters <= max_iters), '
+               'the energy-threshold flag, invalid option values / 3-D input (stream malformed: any error, acceptance or a time-out), the '
+               'layout (n,) vs (n,1) of the returned vector',
+               'TOO LOOSE, noted: the reference table stops at 160 rows; for limits above that only an EARLY return (a candidate of one of '
+               'the first 160 iterates although no rule fired) is detected, a late stop or a limit that is never enforced only by the '
+               '10 s wall-clock budget (does-not-terminate; literal, termination being this property\'s subject)']
 RULE = ('random signals of 9 families (noise, random walk, tones+trend, AM/FM, integer plateaus, constants, ramps, engineered '
         'few-extrema n=5..16, perfect IMFs) x stop rule {sd, rilling, fixed} x thresholds over their documented ranges x step in (0,1] '
         'x max_iters {1,2,3,5,10,50,1000} x interpolation {splrep,pchip,mono_pchip} x pad_width {1,2,3,5} x energy threshold '
